@@ -451,6 +451,48 @@ Definition mx_translate_st (tab : list (bytes * bytes)) (f : mx_src) : list (byt
   (tab', map (fun c => match lookup c tab' with Some b => b | None => [] end) (snd f)).
 Definition mx_translate (f : mx_src) : list bytes := snd (mx_translate_st [] f).
 
+(* ---- CONFIGURATIONS: several engines of one process with function tables of their own ------------
+   compileDir asks the engine's FuncProvider for the function table of every file's translator: what a
+   file is translated to is a function of the file and of THAT engine's configuration.  A process
+   loads its engines one after the other ([es]: configuration and directory listing of each); what
+   engine i stores under a name does not depend on the engines loaded before it. *)
+Section Configs.
+  Variable src tpl cfg : Type.
+  Variable translate : cfg -> src -> tpl.   (* newRenderState + funcs from FuncProvider() + Parse + TokenToTemplate *)
+
+  Definition load_cfg (e : cfg * list (bytes * src)) : list (bytes * tpl) :=
+    load src tpl (translate (fst e)) (snd e).
+  Definition load_all (es : list (cfg * list (bytes * src))) : list (list (bytes * tpl)) := map load_cfg es.
+
+  (* the variant: finished translations are kept in a table of the PROCESS, found again by the source
+     text alone - the first engine that translates a text decides for all engines after it *)
+  Variable src_eqb : src -> src -> bool.
+  Definition memo := list (src * tpl).
+  Definition translate_memo (mm : memo) (c : cfg) (f : src) : memo * tpl :=
+    match find (fun e => src_eqb (fst e) f) mm with
+    | Some e => (mm, snd e)
+    | None => let t := translate c f in (mm ++ [(f, t)], t)
+    end.
+  Fixpoint load_memo (mm : memo) (c : cfg) (files : list (bytes * src)) : memo * list (bytes * tpl) :=
+    match files with
+    | [] => (mm, [])
+    | f :: r => let (mm1, t) := translate_memo mm c (snd f) in
+                let (mm2, ts) := load_memo mm1 c r in (mm2, (fst f, t) :: ts)
+    end.
+  Fixpoint load_all_memo (mm : memo) (es : list (cfg * list (bytes * src))) : list (list (bytes * tpl)) :=
+    match es with
+    | [] => []
+    | e :: r => let (mm1, ts) := load_memo mm (fst e) (snd e) in ts :: load_all_memo mm1 r
+    end.
+End Configs.
+
+(* a translator cut down to what the function table decides: a file is the names it reads; a name the
+   table knows is emitted as a function call, any other name as a variable of the page data *)
+Definition fn_translate (funcs : list bytes) (f : list bytes) : list bytes :=
+  map (fun x => if mem x funcs then x else B "$" ++ x) f.
+Definition names_eqb (a b : list bytes) : bool :=
+  Nat.eqb (length a) (length b) && forallb (fun p => beqb (fst p) (snd p)) (combine a b).
+
 (* ---- RESULTS: the readers Render returns ------------------------------------------------------ *)
 Section Results.
   Variable tpl : Type.
@@ -638,6 +680,31 @@ Definition render_mem (gstore : store) (root : mval) (fuel : nat) (ops : list op
   trun (length gstore) ops (mk_tstate (snd r) [fst r]).
 
 Definition gstore_after (gstore : store) (s : tstate) : store := firstn (length gstore) (t_mem s).
+
+(* the variant: cells for which [keep] holds are not copied - the conversion hands out the caller's own
+   cell.  (A value in the data that already is an object of the engine's model - a *Array or *Map the caller
+   got from pugjs.Convert - went through convert unchanged before the repair F-C07-d; a "nothing to convert"
+   path for a []Object that wraps the caller's slice does the same to that slice.) *)
+Fixpoint mconvert_keep (keep : nat -> bool) (fuel : nat) (m : store) (v : mval) {struct fuel} : mval * store :=
+  match v with
+  | MRef a =>
+    if keep a then (v, m) else
+    match fuel with
+    | O => (MNil, m)
+    | S f =>
+      match nth_error m a with
+      | Some (CArr l) => let r := conv_list (mconvert_keep keep f) m l in malloc (snd r) (CArr (fst r))
+      | Some (CMap items order) =>
+        let r := conv_items (mconvert_keep keep f) m items in malloc (snd r) (CMap (fst r) order)
+      | Some (CPtr v') => mconvert_keep keep f m v'
+      | None => (MNil, m)
+      end
+    end
+  | _ => (v, m)
+  end.
+Definition render_mem_keep (keep : nat -> bool) (gstore : store) (root : mval) (fuel : nat) (ops : list op) : tstate :=
+  let r := mconvert_keep keep fuel gstore root in
+  trun (length gstore) ops (mk_tstate (snd r) [fst r]).
 
 (* the store has no forward references: built bottom-up, hence acyclic; then fuel = size suffices *)
 Definition refs_below (n : nat) (v : mval) : bool :=
